@@ -32,7 +32,7 @@ ASSUMPTIONS = ['float weights only (JSON has no bool/int tensor type)', 'sum-pro
 def plan(prop, tier):
     if tier == 'quick':
         return {'runs': 3000, 'cap': 30.0, 'det_runs': 40, 'legs': [{'hashseed': h} for h in (0, 1, 2, 3)]}
-    return {'cap': 60.0, 'budget_s': 900, 'legs': [{'hashseed': h} for h in (0, 1, 2, 3)]}
+    return {'cap': 240.0, 'budget_s': 900, 'legs': [{'hashseed': h} for h in (0, 1, 2, 3)]}
 
 
 def generate(prop, seed, tier):
@@ -64,7 +64,7 @@ def generate(prop, seed, tier):
             'reader': {'alloc': {'mode': g.choice(['order', 'seq']), 'seed': seed * 2 + 2}},
             'corrupt': corrupt, 'wspecs': wspecs,
             # a real second interpreter as the reader (real addresses as ids, another PYTHONHASHSEED)
-            'reader_proc': {'hashseed': g.randrange(1, 1000)} if g.random() < (0.02 if tier == 'quick' else 0.06) else None}
+            'reader_proc': {'hashseed': g.randrange(1, 1000)} if g.random() < (0.02 if tier == 'quick' else 0.04) else None}
 
 
 def reducers(case):
